@@ -20,6 +20,48 @@ CHECKS = {
    note="Trusted: observation via iterators; lock-point hook covers all 32 acquisition sites (checked by tools/hook_coverage.py).", ref="4.C03"),
 }
 
+
+def S(engine, technique, text, note, ref, category="exploration"):
+    return dict(engine=engine, technique=technique, text=text, note=note, ref=ref, category=category)
+
+SEARCH_NOTE = "Trusted: graphs are built with connect() (C01-C03 establish that lists then match the model); the plain-data model algorithms (BFS distances, reachability, DFS-order deciders), which the thorough tier re-validates against brute-force enumeration of all DFS runs; closure call budget 4|E|+16 turns non-termination into an observation."
+CHECKS.update({
+ "C04": S("search", "PBT with validity-predicate oracle (reachability + shortest-path length from a reference BFS), small-scope enumeration + constructed two-path family + proptest graphs",
+   "All ordered multigraphs on <=4 nodes (bounded edges) x all roots x all targets (incl. an absent key) x {no closure, for_each, every single-edge filter}, a constructed family with two root->target paths of different length in every insertion order, and proptest graphs up to 40 nodes with model-guided root/target and random rejected-edge sets; bfs search and search_path (also transposed), four flavours. Result exists iff target reachable through accepted edges; path starts at root, ends at target, joins, uses stored accepted edges with their values, and its length equals the reference BFS distance; search returns the target's own allocation.", SEARCH_NOTE, "4.C04"),
+ "C05": S("search", "PBT with validity-predicate oracle (reachability, simple path), same generators as C04",
+   "Same generators as C04 for dfs search / search_path: result iff reachable in the accepted graph; valid joined path of stored accepted edges, no node twice.", SEARCH_NOTE, "4.C05"),
+ "C06": S("search", "PBT: invariant over the closure call sequence (priority order of expansions) + validity of paths + exhaustive comparison-operator table",
+   "pfs min/max, four flavours: expansion order reconstructed from the for_each/filter call sequence — when a node starts expanding no discovered, unexpanded node with edges has a strictly smaller (max: larger) value, no node expanded twice; target searches return a valid accepted path iff reachable. Small graphs x ALL priority assignments from {0,1,2}^n enumerated; ties frequent in random graphs. Node ==/!=/cmp/partial_cmp/<,<=,>,>= checked on all pairs of (key,value) combinations incl. i32 extremes.", SEARCH_NOTE, "4.C06"),
+ "C07": S("search", "PBT: multiset equality between closure calls and model edge set; exhaustive rejected-edge subsets",
+   "Every search kind and ordering, with and without target, four flavours: for complete traversals the multiset of (source,target,value) handed to for_each equals the multiset of stored edges leaving model-reachable nodes (undirected: once per endpoint); partial traversals are sub-multisets; every call is a stored edge in traversal orientation. Filters: small graphs x ALL 2^m rejected subsets — no rejected edge in any path, cycle, ordering or search_edges result and found/reached iff so in the accepted graph.", SEARCH_NOTE, "4.C07"),
+ "C08": S("search", "PBT: validity on the reversed model + metamorphic re-run on the physically reversed graph",
+   "Directed flavours, all 20+8 configuration cells with transpose(): every validity oracle of C04-C07/C09/C10 is evaluated on the edge-reversed model; a failure counts for C08 only if the same cell WITHOUT transpose() on the physically reversed graph (same insertion order) is free of that clause, so a general traversal bug is not blamed on transpose(). Untransposed runs must never report an edge that is only stored in the opposite direction. The exact-equality metamorphic relation G.transpose() == reverse(G) is counted as evidence.", SEARCH_NOTE, "4.C08"),
+ "C09": S("search", "PBT with validity-predicate oracle for cycles (existence via reference search, simple-cycle / closed-walk predicate, bfs minimality)",
+   "search_cycle of bfs/dfs/pfs-min/pfs-max (transposed too), four flavours: Some iff the model has a closed walk root->root of >=1 accepted edges; result starts and ends at root, joins, stored accepted edges; directed: no edge used more often than stored, no intermediate node twice, bfs length = shortest cycle through root.", SEARCH_NOTE, "4.C09"),
+ "C10": S("search", "PBT with exact decision procedures 'some DFS discovers / finishes in this order' (backtracking decider validated against brute force)",
+   "preorder/postorder (directed, also transposed) and order().pre()/.post() (undirected), search_nodes and search_edges, with filters: node set = accepted-reachable set exactly once; preorder decided by stack simulation, postorder by a backtracking decider (white-path theorem); root first/last; the edge-order corollary checked independently; search_edges = one stored accepted edge per non-root node, targets in a valid order, sources forming a tree.", SEARCH_NOTE + " The deciders are cross-checked in the thorough tier against enumeration of all DFS runs (all digraphs <=3 nodes + 600 random 4-6 node digraphs, every permutation).", "4.C10"),
+ "C11": S("container", "PBT + exhaustive enumeration against a reference SCC (pairwise reachability), several container instances per graph",
+   "All 2^(n*n) digraphs with self-loops on <=4 nodes and proptest graphs up to 30 nodes with planted components, each on several fresh containers (own hash keys) with different insertion orders, plain and sync: scc() must be a partition of the members equal, as a set of sets, to the pairwise-reachability components.", "Trusted: reference SCC (cross-checked against Tarjan in the thorough tier). Container iteration order cannot be seeded; it is sampled and the number of distinct orders seen is reported.", "4.C11"),
+ "C12": S("container", "round-trip PBT (serialise -> deserialise -> compare with model) + wire-shape oracle on the untyped document",
+   "Four container types x JSON and CBOR: every ordered multigraph on <=3 nodes (bounded edges; distinct and repeated edge values) and proptest graphs up to 40 nodes, two container instances each: same keys and node values; directed: identical out-edge sequence per node and in-multisets; undirected: identical incident-edge multisets and degrees; mirror/symmetry invariants on the result; the document parsed as untyped value is a 2-tuple listing exactly the members and exactly one entry per edge; the original is unchanged.", "Trusted: serde_json / serde_cbor as the two wire formats.", "4.C12"),
+ "C13": S("deser", "coverage-guided fuzzing (libFuzzer + ASan, oracle inside the target) + structural-mutation PBT against a typed reference parse",
+   "Documents = value-level and byte-level mutations of valid documents (proptest), ~130 enumerated synthetic documents and a libFuzzer campaign from a committed seed corpus, on four flavours x JSON/CBOR. Never panics; Err always acceptable; Ok(g) must be structurally sound (members keyed consistently, every edge ends at a member, mirror/symmetry); when serde's own (Vec<(K,N)>,Vec<(K,K,E)>) accepts the document an edge naming an undeclared key must have produced Err and g's nodes/values/edges must come from the document.", "Trusted: serde's tuple/Vec impls as the definition of what a document declares. libFuzzer campaigns are approximately reproducible; saved inputs are exactly reproducible. Quick tier uses the dev-profile fuzz build.", "4.C13"),
+ "C14": S("progs", "generated-program PBT: macro invocations drawn from proptest strategies, compiled against the working tree, output compared with the generator's denotation",
+   "400+ invocations per batch of the four graph macros in all four signature forms (u32 / &str keys, rotated node order => forward references, omitted / empty edge lists, self-loops, repeated edges, values as calls), the empty form and both arities of *_node!/*_connect!, with the expected container type ascribed; 15% ill-formed invocations must panic naming the unlisted key.", "Trusted: rustc/macro expansion; no shrinking of program cases (each step would cost a compilation).", "4.C14"),
+ "C15": S("c15", "differential PBT: identical generated programs on plain vs sync flavour, traces compared step by step",
+   "Programs over the common API (edge ops, queries, all search/ordering cells with none/for_each/filter closures, comparison operators on nodes and edges, container calls incl. duplicate-key inserts, scc, DOT, serde JSON/CBOR, connecting through search-result handles): enumerated short programs on 2 nodes and proptest programs on 1-7 nodes; the observation traces of digraph vs sync_digraph and ungraph vs sync_ungraph must be equal.", "API present in only one member of a pair is excluded (with_capacity; to_dot_with_attr/sizeof of sync_ungraph); panic and self-deadlock both count as 'abnormal'.", "4.C15"),
+ "C16": S("progs", "generated-program PBT: run-time readable auto-trait probes over an exhaustive leaf matrix and random nested payload types, oracle = executable model of the std auto-trait rules",
+   "All 125 (K,N,E) triples over {Send+Sync, Send-only, Sync-only, neither x2} and random nested type expressions, for Node/Edge/Graph/iterators of all four modules: sync types Send <=> Sync <=> all payloads Send+Sync, plain types never; plus one generic positive obligation discharged by the compiler for ALL Send+Sync payloads and a real cross-thread use.", "Trusted: rustc's trait solver. The universally quantified negative half is covered by the leaf x position matrix and random witnesses only.", "4.C16"),
+ "C17": S("c17", "schedule enumeration by a harness-owned deterministic scheduler (lock-point hook) with a serialisability oracle; free-running real-thread stress with progress-based stall detection; single-thread re-entrant-read probe",
+   "2 threads x 1 call: every pair of call shapes sharing a node x 8 initial edge sets, ALL lock-acquisition interleavings (DFS over choice prefixes, capped per scenario and the cap reported); thorough adds all pairs, 2x2 and 3x1 scenarios free of listed known-bad pairs, random schedules. Every execution: no deadlock, panic or poisoned lock; final state + return values equal some sequential order (allowed-successor semantics); invariants at quiescence. Known findings (D15: two mutating calls on the same node pair are not atomic) are matched by exact (flavour, canonical call pair, clause) signature, printed as KNOWN-FINDING and excluded so that anything else — any deadlock, any query/traversal failure, any new pair — is a VIOLATION.", "Scheduler controls lock-acquisition order only; std RwLock's writer-preference queue is not modelled — covered by the re-entrant-read probe + real-thread tier. lock_point must precede every acquisition (32 sites).", "4.C17", "exploration"),
+ "C18": S("contmap", "model-based stateful PBT against a key->allocation map model; DOT parsed line-wise",
+   "Histories of container calls interleaved with edge operations on members and removed nodes, connects routed through container-obtained handles: every sequence of <=4 (thorough 5) letters of a 10-letter alphabet on 2 keys followed by all observations, and proptest histories on 1-6 keys, four flavours; insert/get/[]/contains/len/is_empty/remove/to_vec/iter agree with the model and return the inserted allocation; roots/leaves/orphans = members filtered by their own lists; to_dot / to_dot_with_attr contain one node statement per member, one edge statement per iterated edge, and exactly the callback-supplied attributes.", "Index on absent keys not exercised; same-key impostor nodes are only offered to insert.", "4.C18"),
+ "C19": S("drops", "model-based stateful PBT with drop-counting payloads (released <=> no holder), every drop order enumerated on small shapes",
+   "Held objects (handles, clones, containers, kept Path / node / Vec<Node> / Vec<Edge> / cycle / to_vec results) over create, connect (self-loops), try_connect, lookups, disconnect, isolate, container insert/remove/get, search, use, drop; enumerated: 1-3(4) nodes x 6 wirings x 7 result kinds x with/without container x with/without lookups x EVERY drop order; proptest histories. After every step each node value is alive iff some held object mentions it, dropped exactly once, kept results stay usable, nothing alive after the last drop.", "Neighbours of a node released while connected are excluded from peer-dereferencing calls (library's documented panic is outside the statement).", "4.C19"),
+ "C20": S("c20", "PBT / small-scope enumeration of (graph, loop kind, in-loop script) with the yielded edge checked against the state observed at the yield; hook-detected self-deadlock",
+   "Loop kinds: the four edge iterators and for_each/filter closures of 40 search cells + 16 ordering cells (transposed too); scripts of connect/try_connect/disconnect/isolate on the yielded edge's endpoints, the root or others, queries, nested searches, a nested disconnecting loop, container calls. Enumerated: small graphs x every root x every loop kind x every single operation at yields 0-2 and every pair of mutations; proptest scripts of up to 6 ops. No panic / self-deadlock / yield-budget overrun; every yielded edge exists at that moment with its own endpoints; in-loop mutations satisfy the C03 step relation; invariants and earlier handles fine afterwards.", "'exists at the moment it is yielded' is judged from inside the closure on the observed lists.", "4.C20"),
+})
+
 NOT_YET = "check not implemented yet in this commit (work in progress; see DESIGN.md section 4)"
 
 def main():
@@ -51,6 +93,16 @@ def main():
         },
         "engines": [
             {"name": "hist", "path": "/verif/harness/src/hist.rs", "serves_properties": ["C01", "C02", "C03"], "kind_free_text": "proptest TestRunner + breadth-first enumerator of observed abstract states; step relation / invariant oracles in model.rs"},
+            {"name": "search", "path": "/verif/harness/src/searchrun.rs", "serves_properties": ["C04", "C05", "C06", "C07", "C08", "C09", "C10"], "kind_free_text": "graph enumerators, two-path family, proptest graph strategy; execution + validity oracles in search.rs / model.rs"},
+            {"name": "container", "path": "/verif/harness/src/container.rs", "serves_properties": ["C11", "C12"], "kind_free_text": "enumerators + proptest over Graph containers (scc, serde round trip)"},
+            {"name": "deser", "path": "/verif/harness/src/deser.rs", "serves_properties": ["C13"], "kind_free_text": "structural mutation with proptest + libFuzzer target harness/fuzz/fuzz_targets/deser.rs (cargo-fuzz, ASan)"},
+            {"name": "progs", "path": "/verif/harness/src/progs.rs", "serves_properties": ["C14", "C16"], "kind_free_text": "generated Rust programs compiled against /repo, output compared with the generator's denotation"},
+            {"name": "c15", "path": "/verif/harness/src/c15.rs", "serves_properties": ["C15"], "kind_free_text": "differential trace comparison plain vs sync"},
+            {"name": "c17", "path": "/verif/harness/src/c17.rs", "serves_properties": ["C17"], "kind_free_text": "lock-point scheduler (DFS over schedules), serialisability oracle, free-running child processes"},
+            {"name": "contmap", "path": "/verif/harness/src/contmap.rs", "serves_properties": ["C18"], "kind_free_text": "container map model, DOT parser"},
+            {"name": "drops", "path": "/verif/harness/src/drops.rs", "serves_properties": ["C19"], "kind_free_text": "drop-counting payload registry, holder model"},
+            {"name": "c20", "path": "/verif/harness/src/c20.rs", "serves_properties": ["C20"], "kind_free_text": "in-loop scripts over every loop kind"},
+            {"name": "ops-fuzz", "path": "/verif/harness/fuzz/fuzz_targets/ops.rs", "serves_properties": ["C01", "C02", "C03", "C04", "C05", "C06", "C07", "C08", "C09", "C10", "C18", "C19", "C20"], "kind_free_text": "libFuzzer target decoding bytes into the structured cases and calling the same oracles (auxiliary campaign, see DESIGN.md)"},
         ],
         "checks": checks,
         "notes": "All checks: property-based testing / small-scope enumeration / fuzzing against explicit oracles (see DESIGN.md). exit 0 held, 1 VIOLATION, 2 cannot decide. Seeds from VERIF_SEED.",
